@@ -1,26 +1,30 @@
-(* C15: witnesses (by computation) that the faithful model of the type checker is neither sound nor
-   complete for the declarative typing rules.  The same programs are in corpus/fun/c15-*.sc and are
-   confirmed on the real checker by the correspondence run (`harness check`). *)
+(* C15: witness programs, by computation.
+   - soundness of the model of the type checker is false (ill-formed types in declarations are
+     accepted): still the behaviour of the real checker, confirmed by every correspondence run;
+   - the instance-order programs are REGRESSION inputs: the checker before fix d524b1f
+     ([check_before_fix]) rejected them although they are well-typed, the checker as it is ([check])
+     accepts them, in every order of the definitions.
+   The same programs are in corpus/fun/c15-*.sc. *)
 From Coq Require Import List ZArith String Bool Permutation.
 From SCC Require Import Lang.FunSyn Model.Check Sem.FunTyping.
 Import ListNotations.
 Open Scope string_scope.
 
-(* corpus/fun/c15-wt-rejected-instance-order.sc:
+(* corpus/fun/c15-wt-instance-order.sc:
      data Bar { MkBar }   codata Foo { get : Bar }   def f(): Foo { new { get => MkBar } } *)
 Definition p_instance_order : fprog :=
   mkfprog [FDData (mkfdata "Bar" [] [mkfctor "MkBar" []]);
            FDCodata (mkfcodata "Foo" [] [mkfdtor "get" [] (FDecl "Bar" [])]);
            FDDef (mkfdef "f" [] (FDecl "Foo" [])
                     (FNew [FClause FCodata "get" [] [] (FCtor "MkBar" [] None)] None))].
-(* corpus/fun/c15-wt-accepted-after-reorder.sc: the same with  def g(x: Bar): i64 { 0 }  before f *)
+(* corpus/fun/c15-wt-instance-order-reordered.sc: the same with  def g(x: Bar): i64 { 0 }  before f *)
 Definition p_instance_order_fixed : fprog :=
   mkfprog [FDData (mkfdata "Bar" [] [mkfctor "MkBar" []]);
            FDCodata (mkfcodata "Foo" [] [mkfdtor "get" [] (FDecl "Bar" [])]);
            FDDef (mkfdef "g" [mkfb "x" FPrd (FDecl "Bar" [])] FI64 (FLit 0));
            FDDef (mkfdef "f" [] (FDecl "Foo" [])
                     (FNew [FClause FCodata "get" [] [] (FCtor "MkBar" [] None)] None))].
-(* ... and with g AFTER f: rejected again - acceptance depends on the order of the definitions *)
+(* ... and with g AFTER f: rejected again before the fix - acceptance depended on the order *)
 Definition p_instance_order_late : fprog :=
   mkfprog [FDData (mkfdata "Bar" [] [mkfctor "MkBar" []]);
            FDCodata (mkfcodata "Foo" [] [mkfdtor "get" [] (FDecl "Bar" [])]);
@@ -30,12 +34,20 @@ Definition p_instance_order_late : fprog :=
 
 Lemma instance_order_well_typed : has_type_b p_instance_order = true.
 Proof. vm_compute. reflexivity. Qed.
-Lemma instance_order_rejected : check p_instance_order = CErr EUndefined.
-Proof. vm_compute. reflexivity. Qed.
+(* the checker as it is accepts all three *)
+Lemma instance_order_accepted : exists q, check p_instance_order = COk q.
+Proof. eexists. vm_compute. reflexivity. Qed.
 Lemma instance_order_fixed_accepted : exists q, check p_instance_order_fixed = COk q.
 Proof. eexists. vm_compute. reflexivity. Qed.
-Lemma instance_order_late_rejected :
-  has_type_b p_instance_order_late = true /\ check p_instance_order_late = CErr EUndefined.
+Lemma instance_order_late_accepted : exists q, check p_instance_order_late = COk q.
+Proof. eexists. vm_compute. reflexivity. Qed.
+(* before the fix: rejected, and dependent on the order of the definitions *)
+Lemma instance_order_rejected_before_fix : check_before_fix p_instance_order = CErr EUndefined.
+Proof. vm_compute. reflexivity. Qed.
+Lemma instance_order_fixed_accepted_before_fix : exists q, check_before_fix p_instance_order_fixed = COk q.
+Proof. eexists. vm_compute. reflexivity. Qed.
+Lemma instance_order_late_rejected_before_fix :
+  has_type_b p_instance_order_late = true /\ check_before_fix p_instance_order_late = CErr EUndefined.
 Proof. split; vm_compute; reflexivity. Qed.
 
 (* corpus/fun/c15-ill-accepted-decl-type-args.sc:
@@ -76,25 +88,25 @@ Proof. vm_compute. reflexivity. Qed.
 Lemma param_applied_accepted : exists q, check p_param_applied = COk q.
 Proof. eexists. vm_compute. reflexivity. Qed.
 
-(* the full statements are false of the faithful model *)
-Lemma check_complete_refuted_lemma :
-  ~ (forall p, has_type p -> exists q, check p = COk q).
-Proof.
-  intro H. destruct (H p_instance_order instance_order_well_typed) as [q Hq].
-  rewrite instance_order_rejected in Hq. discriminate.
-Qed.
+(* soundness, full statement: false of the model of the checker as it is *)
 Lemma check_sound_refuted_lemma :
   ~ (forall p q, check p = COk q -> has_type p).
 Proof.
   intro H. destruct decl_type_args_accepted as [q Hq].
   specialize (H _ _ Hq). unfold has_type in H. rewrite decl_type_args_ill_typed in H. discriminate.
 Qed.
-(* acceptance is not invariant under permutation of the definitions *)
-Lemma check_order_dependent_lemma :
-  (exists q, check p_instance_order_fixed = COk q) /\ check p_instance_order_late = CErr EUndefined
+(* regression: without the line added by fix d524b1f the model is incomplete and order-dependent *)
+Lemma check_before_fix_incomplete :
+  ~ (forall p, has_type p -> exists q, check_before_fix p = COk q).
+Proof.
+  intro H. destruct (H p_instance_order instance_order_well_typed) as [q Hq].
+  rewrite instance_order_rejected_before_fix in Hq. discriminate.
+Qed.
+Lemma check_before_fix_order_dependent :
+  (exists q, check_before_fix p_instance_order_fixed = COk q) /\ check_before_fix p_instance_order_late = CErr EUndefined
   /\ Permutation (fpdecls p_instance_order_fixed) (fpdecls p_instance_order_late).
 Proof.
-  split; [exact instance_order_fixed_accepted|]. split; [exact (proj2 instance_order_late_rejected)|].
+  split; [exact instance_order_fixed_accepted_before_fix|]. split; [exact (proj2 instance_order_late_rejected_before_fix)|].
   unfold p_instance_order_fixed, p_instance_order_late; simpl.
   do 2 apply perm_skip. apply perm_swap.
 Qed.
